@@ -907,12 +907,17 @@ structure QMState where
   wss : List (List Nat) := []
   paths : List Nat := []
   fst : FSt := {}
+  /-- (path, number of executions of IR{path} when the FDP task was created, ordinal) -/
+  fdpLabels : List (Nat × Nat × Nat) := []
+  /-- workspace ↦ FDP keys its FDS resolves at present -/
+  plans : List (Nat × List Key) := []
 
 def qTable (m : QMState) : Nat → Content := fun id => (m.table.lookup id).getD { path := 0, imports := [] }
 def qWss (m : QMState) : Nat → List Nat := fun w => m.wss.getD w []
 def qEnv (m : QMState) : Nat → Option Nat := fun p => m.env.lookup p
 
-def qBodyOf (m : QMState) : Key → Script := qBody true (qTable m) (qWss m) (qEnv m)
+def qBodyOf (m : QMState) : Key → Script :=
+  qBodyFds (fun w => (m.plans.lookup w).getD []) (qBody true (qTable m) (qWss m) (qEnv m))
 
 def qKeyName (m : QMState) (k : Key) : String :=
   let p := k / 8
@@ -922,11 +927,14 @@ def qKeyName (m : QMState) (k : Key) : String :=
   | 2 => s!"A:{p}"
   | 3 => s!"I:{p}"
   | 4 => "L:" ++ "+".intercalate ((qWss m p).map toString)
+  | 6 => "S:" ++ "+".intercalate ((qWss m p).map toString)
+  | 7 => s!"P:{p % 64}#{p / 64}"
   | _ => "Z"
 
 def qUniverse (m : QMState) : List Key :=
   let ps := sortDedup (0 :: m.paths)
   ps.flatMap (fun p => [qk 0 p, qk 1 p, qk 2 p, qk 3 p]) ++ (List.range m.wss.length).map qL ++ [qZ]
+    ++ (List.range m.wss.length).map qS ++ m.fdpLabels.map (fun l => qP l.1 l.2.2)
 
 /-- insertion sort of strings (Go's sort.Strings order = byte order; all names are ASCII) -/
 def insertStr (s : String) : List String → List String
@@ -961,7 +969,7 @@ def incrQueriesStep (m : QMState) (line : String) : QMState × String :=
   match words line with
   | ["shape"] => (m, qShape)
   | ["new", p] => match p.toNat? with
-    | some _ => ({ m with fst := {}, wss := [] }, "ok")
+    | some _ => ({ m with fst := {}, wss := [], fdpLabels := [], plans := [] }, "ok")
     | none => (m, "bad-op")
   | ["put", i, imps, v] => match i.toNat?, parseInts imps, v.toNat? with
     | some i, some imps, some _ =>
@@ -993,9 +1001,39 @@ def incrQueriesStep (m : QMState) (line : String) : QMState × String :=
       | .fuel => (m1, "model-stuck")
       | .block => (m1, "model-block")
       | .ok st1 _ =>
-        let m2 := { m1 with fst := st1 }
-        -- C35: the long-lived executor returns what a brand-new executor returns
-        (m2, "agree " ++ qShowKeys m2)
+        -- then Run(FDS{w}): which FDP tasks it asks for depends on the IR file OBJECTS now current
+        let linkOk := match resultOf st1.s.tasks (qL w) with
+          | .done r => isOk r.val
+          | _ => false
+        let fileOk (p : Nat) : Bool := match resultOf st1.s.tasks (qk 0 p) with
+          | .done r => isOk r.val
+          | _ => false
+        let importsOf (p : Nat) : List Nat := match resultOf st1.s.tasks (qk 3 p) with
+          | .done r => (match r.val with
+            | .ok id => ((qTable m1 id.toNat).imports).filter fileOk
+            | _ => [])
+          | _ => []
+        let rec closure : Nat → List Nat → List Nat → List Nat
+          | 0, _, acc => acc
+          | _ + 1, [], acc => acc
+          | f + 1, p :: rest, acc =>
+            if acc.contains p then closure f rest acc else closure f (importsOf p ++ rest) (acc ++ [p])
+        let files := if linkOk then closure (64 * (m1.paths.length + 2)) ws [] else []
+        let (labels, pkeys) := files.foldl (fun (acc : List (Nat × Nat × Nat) × List Key) p =>
+          let gen := (st1.s.log.filter (· == qk 3 p)).length
+          match acc.1.find? (fun l => l.1 == p && l.2.1 == gen) with
+          | some l => (acc.1, acc.2 ++ [qP p l.2.2])
+          | none =>
+            let ord := (acc.1.filter (fun l => l.1 == p)).length + 1
+            (acc.1 ++ [(p, gen, ord)], acc.2 ++ [qP p ord])) (m1.fdpLabels, [])
+        let m2 := { m1 with fst := st1, fdpLabels := labels, plans := (w, pkeys) :: m1.plans.filter (fun q => q.1 != w) }
+        match runF incrPatched (qBodyOf m2) (qFuel m2) (qBfsFuel m2) none m2.fst [qS w] with
+        | .fuel => (m2, "model-stuck")
+        | .block => (m2, "model-block")
+        | .ok st2 _ =>
+          let m3 := { m2 with fst := st2 }
+          -- C35: the long-lived executor returns what a brand-new executor returns
+          (m3, "agree " ++ qShowKeys m3)
     | none => (m, "bad-op")
   | ["dump"] => (m, qShowDump m)
   | _ => (m, "bad-op")
